@@ -235,6 +235,24 @@ FamDue ==
       d \in {<<>>, <<<<1, 2, "FS">>>>, <<<<1, 2, "FS">>, <<1, 3, "FS">>>>, <<<<1, 3, "FS">>, <<2, 3, "FS">>>>,
              <<<<1, 2, "SS">>>>, <<<<1, 2, "FF">>, <<2, 3, "FS">>>>} }
 
+\* ---- FamAutoComp: automatic tasks bound to components ---------------------------------------
+\* component 1 carries an automatic task (and, optionally, a facility task), component 2 a facility
+\* task; two workplaces with one facility each; project absence with and without the auto flag
+FamAutoComp ==
+  { Cfg("autocomp", 1,
+        << Task(w1, 0, TRUE, 1, FALSE, 1, <<1>>, l1, 0),
+           Task(2, 0, FALSE, 1, TRUE, c2, <<1>>, <<1, 2>>, 1),
+           Task(1, 0, au3, 1, FALSE, 2, <<1>>, <<2>>, 2) >>,
+        d, 1,
+        << Worker(1, <<1, 1, 1>>, <<1, 1>>, 1, FALSE, <<>>, 0), Worker(1, <<0, 1, 1>>, <<1, 1>>, 2, FALSE, <<>>, 0) >>,
+        << Facility(1, <<1, 1, 1>>, 1, FALSE, <<>>), Facility(2, <<1, 1, 1>>, 2, FALSE, <<>>) >>,
+        << [cap |-> cap, inputs |-> <<>>], [cap |-> 2, inputs |-> inp] >>,
+        << [space |-> 2, children |-> <<>>], [space |-> sp2, children |-> <<>>] >>,
+        Opt(al, aa, "TSLACK", 14))
+    : w1 \in {1, 3}, l1 \in {<<1>>, <<2, 1>>, <<>>}, c2 \in {1, 2}, au3 \in BOOLEAN, cap \in {2, 4}, sp2 \in {1, 2},
+      inp \in {<<>>, <<1>>}, al \in {<<>>, <<1>>, <<0, 2>>}, aa \in BOOLEAN,
+      d \in {<<>>, <<<<1, 2, "FS">>>>, <<<<2, 1, "SS">>>>, <<<<1, 3, "FF">>>>} }
+
 \* ---- FamDag: a component with two parents ----------------------------------------------------
 FamDag ==
   { Cfg("dag", 1,
@@ -448,6 +466,7 @@ Family(name, tier) ==
                                        {FixOff, FixOn(<<>>), FixOn(<<2>>), FixOn(<<1>>), FixOn(<<2, 1>>)},
                                        {FixOff, FixOn(<<>>), FixOn(<<3>>), FixOn(<<1, 2>>)}, {<<1, 1, 1>>, <<2, 1, 1>>, <<1, 1, 2>>},
                                        {<<1, 1>>, <<1, 0>>, <<0, 1>>}, {<<>>, <<1>>, <<0, 2>>})
+    [] name = "autocomp" -> FamAutoComp
     [] name = "half"   -> FamHalf
     [] name = "mainwp" -> FamMainWp
     [] name = "due"    -> FamDue
